@@ -258,33 +258,7 @@ def layer3(rep, prog, rule):
 
 
 def _resolve_upvars(prog, b, t):
-    """For a closure body: replaces ('up', name[, field path]) by the term captured in the defining function."""
-    if b.kind != "closure":
-        return t
-    parent = prog.body(b.name.rsplit("::{closure#", 1)[0])
-    if parent is None:
-        return t
-    ptm = T.Terms(parent, prog)
-    caps = None
-    for bi, si, s in parent.stmts():
-        if s["k"] == "assign" and s["rv"]["k"] == "aggregate" and s["rv"]["kind"]["k"] == "closure" and s["rv"]["kind"]["def"] == b.name:
-            caps = [ptm.operand(o) for o in s["rv"]["ops"]]
-    if caps is None:
-        return t
-    names = [u["name"] for u in b.j.get("upvars", [])]
-    table = {}
-    for n, cpt in zip(names, caps):
-        table[T.canon(T._upvar_term(n))] = _resolve_upvars(prog, parent, T.strip_refs(cpt))
-
-    def go(x):
-        if not isinstance(x, tuple) or not x:
-            return x
-        if isinstance(x[0], str):
-            cx = T.canon(x)
-            if cx in table:
-                return table[cx]
-        return tuple(go(y) if isinstance(y, tuple) else y for y in x)
-    return go(t)
+    return lib.resolve_upvars(prog, b, t)
 
 
 def run(rep, programs):
